@@ -110,7 +110,8 @@ IpaProveStep(l0, e) ==
                          <<"<a, b> differs from p(point) evaluated in coefficient form", e.pcls>>, sig("bvector")) \o
                      One(e.bytes = CWriteIPA(ref.proof), l0, "C03", <<"serialised IPA proof differs from the specification's", e.pcls>>, sig("bytes")) \o
                      One(e.next = TChallengeValue(ref.tr, LState), l0, "C03", "prover transcript state differs", sig("transcript")) \o
-                     One(e.inputs_unchanged, l0, "C13", "CreateIPAProof modified its polynomial", sig("inputs"))
+                     One(e.inputs_unchanged, l0, "C13", "CreateIPAProof modified its polynomial", sig("inputs")) \o
+                     One(~Has(e, "tails_unchanged") \/ e.tails_unchanged, l0, "C13", "CreateIPAProof wrote into the spare capacity of the caller's polynomial slice", sig("capacity"))
     IN  <<devs, IF Has(e, "panic") \/ e.err THEN NoHon ELSE [set |-> TRUE, C |-> C, proof |-> ref.proof, point |-> e.point, y |-> y, label |-> e.label]>>)))
 IpaVerifyDevs(l0, e) ==
   One(~Has(e, "tails_unchanged") \/ e.tails_unchanged, l0, "C13", "CheckIPAProof wrote into the spare capacity of the caller's proof slices", <<"ipa_verify", "capacity">>) \o
